@@ -2,6 +2,7 @@ package mon
 
 import (
 	"fmt"
+	"regexp"
 	"math/big"
 	"sort"
 	"strings"
@@ -11,6 +12,7 @@ import (
 	"verifharness/fw"
 	"verifharness/gen"
 
+	"github.com/chain4energy/c4e-chain/x/cfevesting"
 	vesttypes "github.com/chain4energy/c4e-chain/x/cfevesting/types"
 	sdk "github.com/cosmos/cosmos-sdk/types"
 	vestingtypes "github.com/cosmos/cosmos-sdk/x/auth/vesting/types"
@@ -117,6 +119,8 @@ func addDelta(m map[string]map[string]*big.Int, addr, denom string, v *big.Int) 
 
 func neg(v *big.Int) *big.Int { return new(big.Int).Neg(v) }
 
+var accNumRe = regexp.MustCompile(`"account_number":"(\d+)"`)
+
 // observe runs every oracle on one transaction outcome. Violations are keyed by
 // the property they refute; the calling monitor keeps only its own.
 func (e *vestEnv) observe(c *fw.Case, o *txOutcome) {
@@ -176,6 +180,26 @@ func (e *vestEnv) observe(c *fw.Case, o *txOutcome) {
 		if post == "" || stripAccount(accJSON(pre), isSigner, ownVesting) != stripAccount(accJSON(post), isSigner, ownVesting) {
 			c.ViolateD("C09/existing-account-changed/"+op.kind, map[string]string{"op": op.desc, "address": addr, "before": pre, "after": post},
 				"%s (code %d) changed the existing account %s: %s -> %s", op.kind, o.res.Code, short(addr, 14), short(pre, 160), short(post, 160))
+		}
+	}
+	// an account number identifies one account: a new account that takes the number of an
+	// existing one takes over that account's entry in the index by number
+	nums := map[string]string{}
+	for addr, pre := range o.pre.Accounts {
+		if m := accNumRe.FindStringSubmatch(pre); m != nil {
+			nums[m[1]] = addr
+		}
+	}
+	for addr, post := range o.post.Accounts {
+		if o.pre.Accounts[addr] != "" {
+			continue
+		}
+		if m := accNumRe.FindStringSubmatch(post); m != nil {
+			if other, taken := nums[m[1]]; taken {
+				c.ViolateD("C09/account-number-taken-from-existing-account", map[string]string{"op": op.desc, "new": post, "existing": o.pre.Accounts[other]},
+					"%s created account %s with account number %s, which belongs to the existing account %s", op.kind, short(addr, 14), m[1], short(other, 14))
+			}
+			nums[m[1]] = addr
 		}
 	}
 	if !ok {
@@ -554,6 +578,18 @@ func (e *vestEnv) checkSplit(c *fw.Case, o *txOutcome, want map[string]map[strin
 			return
 		}
 	}
+	// the sender keeps a schedule that still covers what it has delegated: the requested amount
+	// comes out of the undelegated locked coins only, so the original vesting that remains is
+	// at least the delegated vesting (x/auth relies on that when the delegation comes back)
+	if postV := parseCVA(o.post.Accounts[from]); postV != nil {
+		for d, dv := range postV.DV {
+			if dv.Cmp(bigOf(postV.OV, d)) > 0 {
+				c.ViolateD("C07/sender-schedule-below-delegated", map[string]string{"op": op.desc, "now": fmtTime(o.now), "sender_before": o.pre.Accounts[from], "sender_after": o.post.Accounts[from]},
+					"%s of %s %s: the sender's original vesting of %s is %s afterwards, below its delegated vesting %s", op.kind, bigOf(amount, d), d, d, bigOf(postV.OV, d), dv)
+				return
+			}
+		}
+	}
 	for d := range unionKeys(o.preSpendable, o.postSpendable, nil) {
 		got := new(big.Int).Sub(bigOf(o.postSpendable, d), bigOf(o.preSpendable, d))
 		wantD := neg(op.fee.AmountOf(d).BigInt())
@@ -730,6 +766,22 @@ func (e *vestEnv) checkLineageAndSummaries(c *fw.Case, now time.Time, where stri
 			c.Violate("C17/missing-trace", "%s: address %s should be traced but is not", where, a)
 			return
 		}
+	}
+	// the lineage survives a restart only through the module's exported genesis: it lists
+	// every stored trace, unchanged
+	if p := safeCall("ExportGenesis", func() {
+		exported := map[string]string{}
+		for _, t := range cfevesting.ExportGenesis(ctx, k).VestingAccountTraces {
+			exported[t.Address] = t.String()
+		}
+		for _, t := range traces {
+			if exported[t.Address] != t.String() {
+				c.ViolateD("C17/trace-not-exported", map[string]string{"stored": t.String(), "exported": exported[t.Address]}, "%s: the exported cfevesting genesis does not carry the stored trace of %s (exported: %q)", where, short(t.Address, 14), exported[t.Address])
+				return
+			}
+		}
+	}); p != nil {
+		c.ViolateD("C20/export-panic", p.Stack, "cfevesting ExportGenesis panicked: %s", short(p.Value, 200))
 	}
 	if uint64(len(traces)) > k.GetVestingAccountTraceCount(ctx) {
 		c.Violate("C17/trace-count", "%s: %d traces but count %d", where, len(traces), k.GetVestingAccountTraceCount(ctx))
